@@ -105,7 +105,8 @@ Allowed(w, b) == Algo \notin {"epidemic", "mule"} \/ IsLocal(Attr[b].dst) \/ (w.
 
 (* peers the algorithm may choose now, and how many of them it takes (the choice among equals is the code's) *)
 Candidates(w, b) ==
-  CASE Algo = "epidemic" -> w.up \ w.st[b].sent
+  CASE IsLocal(Attr[b].dst) -> {}        \* delivered here, the algorithm is not asked
+    [] Algo = "epidemic" -> w.up \ w.st[b].sent
     [] Algo = "mule" -> (w.up \ w.st[b].sent) \ Sensors     \* sensors are filtered out (and reported back as failed, i.e. forgotten)
     [] Algo = "spray" -> IF w.meta[b].has /\ w.meta[b].copies >= 2 THEN w.up \ w.meta[b].sent ELSE {}
     [] Algo = "binary_spray" -> IF w.meta[b].has /\ w.meta[b].copies >= 2 THEN w.up \ w.meta[b].sent ELSE {}
